@@ -1,5 +1,6 @@
 import NA.Proofs.C19Calm3
 import NA.Proofs.C19Race
+import NA.Proofs.C19Group
 import NA.Gen.NewPolicy
 import Lean.Elab.Command
 /-!
@@ -273,12 +274,73 @@ example :
     (run prog false (es ++ [.step 1])).g.lock = none ∧ (run prog false (es ++ [.step 1])).g.remote = 2 ∧
     quiescent (run prog false (es ++ [.step 1])) = true := by decide +kernel
 
+/-! ### … and when the whole process group is killed while the compiler is half way
+
+`runG` = `run` plus the event `killGroup pid`: the shell AND its compiler child die, `next/code` keeps
+part of the output (no stamp), the flock is free at once.  The three structural properties hold over
+ALL such histories as well. -/
+
+theorem group_kill_current_absent_or_compiled (sysEmail : Bool) (es : List EventG) :
+    (runG prog sysEmail es).g.currentOK = true := by
+  have h := (inv124_runG fd9_inherited_checked safety_checked numbering_checked code_checked sysEmail es).1.gi
+  unfold G.currentOK
+  cases hc : (runG prog sysEmail es).g.current with
+  | none => rfl
+  | some n =>
+    obtain ⟨d, hd⟩ := h.cur n hc
+    simp [hd, h.dirs n d hd]
+
+theorem group_kill_compiled_code_belongs_to_head (sysEmail : Bool) (es : List EventG) (n : Nat) (d : Dir)
+    (hd : lookupDir (runG prog sysEmail es).g.dirs n = some d) :
+    dirCodeOK (runG prog sysEmail es).g.store d = true := by
+  have h := (inv124_runG fd9_inherited_checked safety_checked numbering_checked code_checked sysEmail es).2.2.gi
+  unfold dirCodeOK
+  cases hb : d.built with
+  | false => rfl
+  | true =>
+    obtain ⟨x, hx, _, hc, hm⟩ := h.dirs n d hd hb
+    simp [hx, hc, hm, treeOf]
+
+theorem group_kill_at_most_one_worker (sysEmail : Bool) (es : List EventG) (p q : Proc)
+    (hp : p ∈ (runG prog sysEmail es).procs) (hq : q ∈ (runG prog sysEmail es).procs)
+    (wp : works prog p = true) (wq : works prog q = true) :
+    p = q ∧ (runG prog sysEmail es).g.lock = some p.pid := by
+  have hinv := (inv124_runG fd9_inherited_checked safety_checked numbering_checked code_checked sysEmail es).1
+  have h1 := works_holds safety_checked hinv hp wp
+  have h2 := works_holds safety_checked hinv hq wq
+  rw [h1] at h2
+  injection h2 with h2
+  exact ⟨hinv.uniq p hp q hq h2, h1⟩
+
+/-- Numbering over histories with group kills (here with the hypothesis on the ghost `trouble` itself: the
+race-freeness argument of `no_git_trouble_if_race_free` is proved for `run` only). -/
+theorem group_kill_policy_numbers_strictly_increase_partial (sysEmail : Bool) (es : List EventG)
+    (h1 : (runG prog sysEmail es).g.trouble = false) (h2 : (runG prog sysEmail es).g.edited = false) :
+    strictlyDecreasing (runG prog sysEmail es).g.hist = true :=
+  strictlyDecreasing_of_pairwise _
+    ((inv124_runG fd9_inherited_checked safety_checked numbering_checked code_checked sysEmail es).2.1.n ⟨h1, h2⟩).incr
+
+/-- Non-vacuity: the second invocation is killed with its whole group while it compiles — `next` is left
+with partial code and without stamp, the lock is free; an undisturbed run right after it leaves p1 current
+(the window of F-C19b), after one more commit the next run removes the leftover and promotes p2. -/
+example :
+    let a : List Event := history1 ++ stepsN 2 (countUntil (· == .compile) 2 200 (run prog false history1))
+    let es : List EventG := a.map .base ++ [.killGroup 2]
+    let s := runG prog false es
+    s.g.lock = none ∧ (s.g.next.map fun d => (d.built, d.dirty)) = some (false, true) ∧ s.g.current = some 1 ∧
+    s.g.trouble = false ∧ s.g.edited = false ∧ s.g.hist = [1] ∧
+    (runG prog false (es ++ [.base .spawn] ++ (stepsN 3 200).map .base)).g.current = some 1 ∧
+    (runG prog false (es ++ [.base (.commit true none true), .base .spawn] ++ (stepsN 3 200).map .base)).g.current = some 2 := by
+  decide +kernel
+
 def obligations : List Lean.Name := [
   ``script_understood, ``fd9_inherited_checked, ``safety_checked, ``numbering_checked, ``code_checked, ``calm_checked, ``calm_forward,
   ``compiled_code_belongs_to_head, ``wrappers_only_delegate,
   ``next_run_promotes_newest_partial,
   ``current_absent_or_compiled, ``compile_ok_iff_good, ``bad_commit_never_changes_current, ``at_most_one_worker,
   ``git_checked, ``no_git_trouble_if_race_free, ``policy_numbers_strictly_increase_partial, ``policy_numbers_strictly_increase_counterexample,
-  ``next_run_promotes_newest_counterexample, ``next_run_promotes_newest_counterexample_compile]
+  ``next_run_promotes_newest_counterexample, ``next_run_promotes_newest_counterexample_compile,
+  ``group_kill_current_absent_or_compiled, ``group_kill_compiled_code_belongs_to_head, ``group_kill_at_most_one_worker,
+  ``group_kill_policy_numbers_strictly_increase_partial]
 
 end NA.C19
